@@ -24,6 +24,7 @@ Loads == { [doc |-> "keys", keys |-> <<K1>>], [doc |-> "single", keys |-> <<K1b>
 Readback == <<[op |-> "ItemGet", ring |-> 0, index |-> 0], [op |-> "ItemGet", ring |-> 0, index |-> 1],
               [op |-> "ItemGet", ring |-> 0, index |-> 2], [op |-> "ItemGet", ring |-> 0, index |-> 3],
               [op |-> "ItemGet", ring |-> 0, index |-> 7],
+              [op |-> "ItemGet", ring |-> 0, index |-> 0, hi |-> 1], [op |-> "ItemGet", ring |-> 0, index |-> 1, hi |-> 5],
               [op |-> "Count", ring |-> 0], [op |-> "Find", ring |-> 0, kid |-> "k1"],
               [op |-> "Find", ring |-> 0, kid |-> "k2"], [op |-> "Find", ring |-> 0, kid |-> "k"],
               [op |-> "ErrAny", ring |-> 0]>>
@@ -40,6 +41,8 @@ DoLoad(ld) ==
             ELSE [op |-> "Load", ring |-> 0, via |-> via, doc |-> ld.doc, keys |-> kds])
 
 DoFree(idx) == rings[0].live /\ ItemFree(0, idx, 0) /\ Rec([op |-> "ItemFree", ring |-> 0, index |-> idx])
+\* an index of 2^32 * hi + idx is out of range whatever idx is
+DoFreeHuge(idx) == rings[0].live /\ ItemFree(0, 1000000, 0) /\ Rec([op |-> "ItemFree", ring |-> 0, index |-> idx, hi |-> 1])
 DoFreeBad == rings[0].live /\ FreeBad(0) /\ Rec([op |-> "FreeBad", ring |-> 0])
 DoFreeAll == rings[0].live /\ FreeAll(0) /\ Rec([op |-> "FreeAll", ring |-> 0])
 
@@ -51,6 +54,7 @@ MCNext ==
      \/ \E idx \in {0, 1, Len(rings[0].items) - 1, Len(rings[0].items)} : idx >= 0 /\ DoFree(idx)
      \/ DoFreeBad
      \/ DoFreeAll
+     \/ DoFreeHuge(0)
 MCSpec == MCInit /\ [][MCNext]_mvars
 
 \* ---- the property on the reference model
